@@ -245,10 +245,10 @@ func runFreeWire(t *testing.T, rc *RunCtx) {
 			}
 		}
 	}
-	// A third of the runs: churn.  One or two clients keep creating accounts, locking and unlocking accounts and
+	// A quarter of the runs: churn.  One or two clients keep creating accounts, locking and unlocking accounts and
 	// wallets (well-formed, permitted requests that change the instance's in-memory state) while several others
 	// sign by public key and list, all at once, until the creators are done.
-	if len(rc.Viol) == 0 && ch.Pick(3, 0) == 2 {
+	if len(rc.Viol) == 0 && ch.Pick(4, 0) == 3 {
 		creators := 1 + ch.Pick(2, 0)
 		perCreator := 6 + ch.Pick(12, 0)
 		readers := 4 + ch.Pick(12, 0)
@@ -291,10 +291,12 @@ func runFreeWire(t *testing.T, rc *RunCtx) {
 			wgR.Add(1)
 			go func(rIdx int) {
 				defer wgR.Done()
-				ctx := n.Inst.ClientCtx([]string{"client1", "client2"}[rIdx%2], "")
+				// Half of the readers are clients without any permission: their requests end right after the
+				// account lookup, so they perform lookups at a much higher rate.
+				ctx := n.Inst.ClientCtx([]string{"client1", "nobody", "client2", "nobody"}[rIdx%4], "")
 				for u := uint64(0); !done.Load(); u++ {
 					var p string
-					if rIdx%4 == 3 {
+					if rIdx%8 == 6 {
 						_, _, p, _ = callGuarded(60*time.Second, func() (proto.Message, error) {
 							return n.Inst.ListerH.ListAccounts(ctx, &pb.ListAccountsRequest{Paths: []string{"Wallet 1"}})
 						})
